@@ -307,6 +307,7 @@ void run_frames(Ctx& c) {
 }  // namespace
 
 int main(int argc, char** argv) {
+  install_death_hooks();
   Ctx c;
   for (int i = 1; i < argc; i++) {
     std::string a = argv[i];
